@@ -37,30 +37,43 @@ def _mask_inconclusive(ctx):
 
 
 def _cheap_minimise(ctx):
-    """Replaying a history costs real time (its ticks, and 5 s for every call that hangs): a history whose failure is a
-    timeout or hang is reported as it is, every other one is minimised with a small budget."""
+    """Replaying a history costs real time (its ticks, and 5 s for every call that hangs).  Replays are memoised; a
+    history whose failure is a timeout or hang is reported as it is; every other one is minimised with a small ddmin
+    budget and all minimisations of a run together get at most MIN_BUDGET_S seconds of replay time (after that an
+    untried candidate counts as "does not fail", i.e. the reduction stops where it is)."""
+    import time
+    MIN_BUDGET_S = 25.0
     minimise0 = ctx._minimise
     mismatch0 = ctx._mismatch
     memo = {}
+    state = {"in_min": False, "spent": 0.0}
 
     def mismatch(area, driver, name, hist, canon, extra_env=None):
         key = (area, tuple(hist))
         if key not in memo:
+            if state["in_min"] and state["spent"] > MIN_BUDGET_S:
+                return None
+            t = time.time()
             memo[key] = mismatch0(area, driver, name, hist, canon, extra_env)
+            if state["in_min"]:
+                state["spent"] += time.time() - t
         return memo[key]
-
-    ctx._mismatch = mismatch
 
     def minimise(area, driver, name, hist, canon, extra_env=None, budget=80):
         if area != "burst":
             return minimise0(area, driver, name, hist, canon, extra_env, budget)
         if len(hist) <= 6:
             return hist
-        r = ctx._mismatch(area, driver, name, hist, canon, extra_env)
+        r = mismatch(area, driver, name, hist, canon, extra_env)
         if r is None or any(("timeout" in o or "hang" in o or "never-answered" in o) for o in r[1]):
             return hist
-        return minimise0(area, driver, name, hist, canon, extra_env, 12)
+        state["in_min"] = True
+        try:
+            return minimise0(area, driver, name, hist, canon, extra_env, 12)
+        finally:
+            state["in_min"] = False
 
+    ctx._mismatch = mismatch
     ctx._minimise = minimise
 
 
@@ -69,7 +82,7 @@ def _stress_corpus(ctx):
     lines = ctx.corpus("stress")
     if not lines or ctx.replay or "harness" not in ctx.harness_bin:
         return
-    outs = ctx.run_impl("stress", lines, timeout=600, extra_env={"C16_STRESS_PAR": "4"}) or []
+    outs = ctx.run_impl("stress", lines, timeout=600, extra_env={"C16_STRESS_PAR": "8"}) or []
     for l, o in zip(lines, outs):
         ctx.extra["oracle_stress_corpus"] = ctx.extra.get("oracle_stress_corpus", 0) + 1
         if not o.startswith("ok"):
